@@ -23,7 +23,8 @@ TS = "protocol::transport_service::TransportService::"
 def r08_1(ctx, fx):
     fn = ctx.fn(fx, TS + "on_connection_established", "R08.1")
     if fn is not None:
-        ins = [c.node for c in field_calls(fn, r"HashMap::insert$", "connections")]
+        from common import map_inserts
+        ins = [c.node for c in map_inserts(fn, "connections")]
         ev = [n for n, s in fn.aggregates(r"TransportEvent$", "ConnectionEstablished")]
         ctx.anchor("R08.1", "established: insert + event sites", min(len(ins), len(ev)), 1, cfg=fx.cfg)
         for e in ev:
